@@ -40,14 +40,15 @@ def opValues : List String :=
    "#", ",", ":", "%", "+", "-", "/", "&&", "||", "==", "!=", "<=", ">=", "**", "<", ">", "*", "!"]
 def bracketValues : List String := ["(", ")", "[", "]", "{", "}"]
 
-/-- the tokens that have a spelling in the classes proved so far: every operator and bracket, string literals,
-    decimal integers, identifiers that are not keywords (floats are not: their spelling is a parameter) -/
+/-- the tokens that have a proved spelling: every operator and bracket, string literals, numbers written as
+    digits (with `_`), optional fraction and optional exponent with at least one digit (C12's `FloatParts`:
+    decimal integers and floats), identifiers that are not keywords -/
 def Printable (cc : CharClass) (t : Token) : Prop :=
   match t.kind with
   | .string => True
   | .bracket => t.value ∈ bracketValues
   | .operator => t.value ∈ opValues
-  | .number => ∃ c cs, t.value.toList = c :: cs ∧ ('0' ≤ c ∧ c ≤ '9') ∧ ∀ x ∈ cs, '0' ≤ x ∧ x ≤ '9'
+  | .number => ∃ p : FloatParts, p.WF ∧ p.ExpDigits ∧ t.value.toList = p.text
   | .identifier => ∃ c cs, t.value.toList = c :: cs ∧ IdStart cc c ∧ (∀ x ∈ cs, cc.isAlphaNumeric x = true) ∧
       t.value ≠ "not" ∧ LexTables.std.kwOps.contains t.value = false
   | .eof => False
@@ -164,8 +165,8 @@ theorem tok_spells {cc : CharClass} (hcc : cc.AsciiExact) (t : Token) (hp : Prin
     show v = String.ofList _
     rw [hid]; exact String.ofList_toList.symm
   | number =>
-    obtain ⟨c, cs, hv, hc, hcs⟩ := hp
-    have := spells_decimal hcc c cs hc hcs
+    obtain ⟨p, hwf, hx, hv⟩ := hp
+    have := spells_float hcc p hwf hx
     refine spells_cast this (by simp [tokRaw, hv]) ?_ (fun r h => h)
     rw [← hv]; exact String.ofList_toList.symm
   | identifier =>
